@@ -1096,6 +1096,31 @@ int main(int argc, char** argv)
       }
     }
     g_stats.sig("shapes", "LOG_RUNTIME_METADATA(str, int, str)");
+    // statements without arguments: the format string is still a format string (escaped braces)
+    auto zero_arg = [&](char const* shape, std::string expected, auto&& log_it)
+    {
+      if (g_failed) return;
+      if (!g_accept_all) expected = my_escape(expected);
+      recorder().clear();
+      log_it();
+      g_manual->poll();
+      std::vector<std::string> msgs;
+      for (auto const& e : recorder().snapshot()) if (e.kind == 'w') msgs.push_back(e.msg);
+      ++g_cases;
+      if (msgs.size() != 1 || msgs[0] != expected)
+      {
+        violation("C04", "async-message-differs-from-call-site-formatting", J{}.str("shape", shape).str("got", msgs.empty() ? "<nothing>" : msgs[0].substr(0, 300)).str("want", expected.substr(0, 300)).unum("messages", msgs.size()).boolean("accept_all_chars", g_accept_all));
+        g_failed = true;
+      }
+      g_stats.sig("shapes", shape);
+    };
+    for (int rep = 0; rep < 3; ++rep)
+    {
+      zero_arg("no arguments: plain text", fmtquill::format("plain text without arguments"), [&] { LOG_INFO(g_logger, "plain text without arguments"); });
+      zero_arg("no arguments: escaped braces", fmtquill::format("body {{\"id\": 7}} }} {{ {{}}"), [&] { LOG_INFO(g_logger, "body {{\"id\": 7}} }} {{ {{}}"); });
+      zero_arg("no arguments: only escaped braces", fmtquill::format("{{}}"), [&] { LOG_INFO(g_logger, "{{}}"); });
+      zero_arg("no arguments: dynamic level, escaped braces", fmtquill::format("dyn {{x}}"), [&] { LOG_DYNAMIC(g_logger, quill::LogLevel::Warning, "dyn {{x}}"); });
+    }
   }
   if (g_mode == Mode::Alloc) quill::Backend::stop();
   if (g_mode == Mode::Alloc && !g_failed && CODEC_PART == 0)
